@@ -644,6 +644,10 @@ def with_decoy(mod, case, seed_str):
                 if key not in cfg and rng.random() < 0.5:
                     cfg[key] = rng.choice(vals)
             case = dict(case, cfg=cfg)
+        if rng.random() < getattr(mod, "DEBUG_FLAGS", 0.04):
+            # debug output switched on (config["debug"] and the module flag of the Petri-net translation): printing must
+            # not change any result (the runner silences stdout while such a case runs)
+            case = dict(case, cfg=dict(case.get("cfg", {}), debug=True), _debug=True)
         if "order" not in case and rng.random() < getattr(mod, "ORDER", 0.08):
             # variables declared in a non-alphabetical order (`BooleanNetwork(variables=[...])`; honoured by plain.make_sd)
             case = dict(case, order=[rng.randrange(64) for _ in range(8)])
